@@ -251,7 +251,6 @@ def phase_filter(sample, workers=8):
     print(f"survived the repository's suite: {surv} of {len(muts)}", flush=True)
 
 
-MAX_CHECKS = int(os.environ.get("MVF_AUTOMUT_MAX_CHECKS", "8"))
 
 
 def irrelevant(m):
@@ -260,24 +259,63 @@ def irrelevant(m):
     return "tqdm" in t or "logger.info" in t or "logger.debug" in t or "print_progress" in t
 
 
-KEYWORDS = [("rt_", "C17"), ("sleep", "C17"), ("delta", "C17"), ("set_event", "C17"), ("perf_counter", "C17"),
-            ("async", "C16"), ("set_data", "C16"), ("successors_to_wait_for", "C16"), ("lazy", "C10"),
-            ("successors", "C10"), ("cache", "C03 C04"), ("max_advance", "C07"), ("loop", "C09"),
-            ("until", "C02 C05"), ("stop", "C14"), ("ConnectionError", "C14"), ("finalize", "C14"),
-            ("version", "C15"), ("api", "C15"), ("weak", "C11 C06"), ("initial_data", "C11 C03"), ("group", "C11 C01"),
-            ("trigger", "C02 C12"), ("persistent", "C03 C12"), ("output_time", "C13 C03"), ("next_step", "C13 C02"),
-            ("progress", "C01 C05"), ("pre_length", "C08"), ("cutoff", "C08")]
+# enclosing function -> the checks whose property the function is anchored in (all of them are run for a survivor of
+# the repository's suite; None = outside every listed property)
+FUNC_CHECKS = {
+    "mosaik/_debug.py": {"*": "C04 C02"},
+    "mosaik/adapters.py": {"*": "C15"},
+    "mosaik/in_or_out_set.py": {"*": "C12 C11"},
+    "mosaik/internal_util.py": {"*": "C03 C16 C04"},
+    "mosaik/tiered_time.py": {"*": "C08 C06 C01 C05"},
+    "mosaik/progress.py": {"*": "C01 C05 C02 C07"},
+    "mosaik/util.py": {"*": "C18"},
+    "mosaik/proxies.py": {"LocalProxy": "C15 C16 C14", "RemoteProxy": "C14 C15 C16", "*": "C15 C14"},
+    "mosaik/scenario.py": {
+        "World.__init__": "C03 C04 C09 C17 C14", "World.cache_triggering_ancestors": "C07 C05 C02",
+        "World.connect_one": "C11 C03 C01 C02 C06 C10", "World.connect_async_requests": "C16 C06",
+        "World.connect": "C11 C16 C03", "World.get_data": "C14", "World.run": "C14 C06 C05 C17 C04",
+        "World.shutdown": "C14", "World.start": "C15 C12 C14", "connect_interval": "C11 C01 C08 C02",
+        "group_path": "C11 C01 C02", "parse_attrs": "C12", "update_min": "C05 C07 C06", "SimGroup": "C11 C01",
+        "ModelMock": "C12 C11", "World.ensure_no_dataflow_cycles": "C06 C05", "World.set_initial_event": "C02",
+        "World.group": "C11 C01", "*": None},
+    "mosaik/scheduler.py": {
+        "get_avg_progress": None, "rt_sleep": None, "get_progress": None,
+        "get_input_data": "C03 C16 C04", "get_max_advance": "C07 C17", "get_outputs": "C03 C13 C04",
+        "next_step_settled": "C05 C02 C17", "prune_dataflow_cache": "C03 C04", "rt_check": "C17",
+        "run": "C17 C14 C05", "sim_process": "C05 C09 C14 C02 C17", "step": "C13 C02 C17 C07",
+        "wait_for_dependencies": "C01 C10 C16", "notify_dependencies": "C02 C03", "advance_progress": "C07 C05 C17 C02",
+        "*": "C02 C03 C05"},
+    "mosaik/simmanager.py": {
+        "MosaikRemote._assert_async_requests": "C16", "MosaikRemote.get_data": "C16", "MosaikRemote.set_data": "C16",
+        "MosaikRemote.set_event": "C17", "MosaikRemote": "C16 C17", "SimRunner.__init__": "C02 C05 C17 C01 C03",
+        "SimRunner.schedule_step": "C02 C05 C17", "SimRunner.step": "C13 C02", "SimRunner": "C02 C03 C14 C05",
+        "TimedInputBuffer": "C03 C04", "start": "C15 C14", "start_inproc": "C15", "start_proc": "C14",
+        "start_connect": "C14", "*": "C14 C15"},
+}
 
 
-def check_order(m, context):
-    first = []
-    for kw, props in KEYWORDS:
-        if kw in context:
-            for p in props.split():
-                if p not in first:
-                    first.append(p)
-    rest = [p for p in ORDER[m["file"]].split() if p not in first]
-    return (first + rest)[:max(MAX_CHECKS, len(first))] if m["file"] != "mosaik/_debug.py" else rest
+def enclosing_functions(repo):
+    out = {}
+    for rel in FILES:
+        tree = ast.parse(open(os.path.join(repo, rel)).read())
+        out[rel] = [(n.lineno, n.end_lineno, n.name) for n in ast.walk(tree)
+                    if isinstance(n, (ast.FunctionDef, ast.AsyncFunctionDef, ast.ClassDef))]
+    return out
+
+
+def func_of(m, spans):
+    inner = sorted([s for s in spans[m["file"]] if s[0] <= m["line"] <= s[1]], key=lambda s: -(s[1] - s[0]))
+    return ".".join(s[2] for s in inner) or "<module>"
+
+
+def checks_for(m, spans):
+    table = FUNC_CHECKS[m["file"]]
+    name = func_of(m, spans)
+    parts = name.split(".")
+    for k in (name, ".".join(parts[:2]), parts[0]):
+        if k in table:
+            return name, (table[k].split() if table[k] else [])
+    return name, (table["*"].split() if table.get("*") else [])
 
 
 def phase_checks():
@@ -288,14 +326,17 @@ def phase_checks():
             and not irrelevant(m)]
     print(f"{len(todo)} survivors of the suite to run the quick checks against", flush=True)
     wt = worktree("wt_checks")
+    spans = enclosing_functions(REPO)
+    only = os.environ.get("MVF_AUTOMUT_FILES")
+    if only:
+        todo = [m for m in todo if m["file"] in only.split(",")]
     try:
         for m in todo:
             apply(wt, m)
             row = {}
             killed_by = None
-            lines = open(os.path.join(wt, m["file"])).read().splitlines()
-            context = "\n".join(lines[max(0, m["line"] - 4):m["line"] + 3])
-            for p in check_order(m, context):
+            fname, plist = checks_for(m, spans)
+            for p in plist:
                 env = dict(os.environ, MVF_NO_EVIDENCE="1", MVF_REPO=wt)
                 try:
                     r = subprocess.run([os.path.join(VERIF, "check"), p, "quick"], env=env, capture_output=True,
@@ -305,11 +346,11 @@ def phase_checks():
                 except subprocess.TimeoutExpired:
                     rc, rules = 124, ["timeout"]
                 row[p] = dict(rc=rc, rules=rules[:4])
-                if rc != 0:
+                if rc == 1:
                     killed_by = p
                     break
             restore(wt, m)
-            done[m["id"]] = dict(killed_by=killed_by, checks=row)
+            done[m["id"]] = dict(killed_by=killed_by, checks=row, func=fname, in_scope=bool(plist))
             print(f"[checks] {m['file']}:{m['line']} {m['op']} {m['old']!r}->{m['repl']!r} | {m['text'][:70]} | "
                   f"{'KILLED by ' + killed_by + ' ' + str(row[killed_by]['rules'][:2]) if killed_by else 'SURVIVED'}",
                   flush=True)
